@@ -95,10 +95,10 @@ func (f *MakeArray) Call(s *slip.Scope, args slip.List, depth int) slip.Object {
 		dims = []int{int(ta)}
 	case slip.List:
 		for _, v := range ta {
-			if num, _ := v.(slip.Fixnum); 0 < num && num <= slip.ArrayMaxDimension {
+			if num, ok := v.(slip.Fixnum); ok && 0 <= num && num <= slip.ArrayMaxDimension {
 				dims = append(dims, int(num))
 			} else {
-				slip.TypePanic(s, depth, "dimensions", args[0], "list of positive fixnums")
+				slip.TypePanic(s, depth, "dimensions", args[0], "list of non-negative fixnums")
 			}
 		}
 	default:
